@@ -24,9 +24,9 @@ LEVEL_TEXT = (
 STATE = "leaspy.variables.state"
 
 
-def r1_snapshot(ctx):
-    ctx.rule("C02.R1", "snapshot of (name,)+sorted_children before the store, under auto_fork_type is not None", 2)
-    f = ctx.ix.func(STATE, "State.__setitem__", "C02.R1")
+def r1_snapshot(ctx, rid="C02.R1", title="snapshot of (name,)+sorted_children before the store, under auto_fork_type is not None"):
+    ctx.rule(rid, title, 2)
+    f = ctx.ix.func(STATE, "State.__setitem__", rid)
     cfg = CFG(f.node)
     inl = Inliner(f.node)
     key = [p.arg for p in f.node.args.args][1]
@@ -34,19 +34,19 @@ def r1_snapshot(ctx):
         isinstance(t, ast.Subscript) and U(t.value) == "self._values" and U(t.slice) == key for t in s.targets))]
     snaps = [n for n in cfg.nodes(lambda s: isinstance(s, ast.Assign) and any(U(t) == "self._last_fork" for t in s.targets))]
     if len(stores) != 1:
-        raise AnalysisError("C02.R1", "anchor vanished: the store `self._values[name] = value` in State.__setitem__")
+        raise AnalysisError(rid, "anchor vanished: the store `self._values[name] = value` in State.__setitem__")
     if not snaps:
-        ctx.violation("C02.R1", f, f.node, "State.__setitem__ takes no snapshot (`self._last_fork = ...`): nothing to revert to", construct="def __setitem__")
+        ctx.violation(rid, f, f.node, "State.__setitem__ takes no snapshot (`self._last_fork = ...`): nothing to revert to", construct="def __setitem__")
         return
     store = stores[0]
     # every assignment stores (and therefore snapshots): a put that returns early leaves the snapshot of an *earlier* assignment as the
     # reference of the next revert, which then undoes an accepted move (or finds nothing to revert)
-    ctx.check(cfg.all_paths_pass(cfg.entry, [store]), "C02.R1", f, cfg.stmt[store], "every normal path through __setitem__ reaches the store (no silent early return)",
+    ctx.check(cfg.all_paths_pass(cfg.entry, [store]), rid, f, cfg.stmt[store], "every normal path through __setitem__ reaches the store (no silent early return)",
               "State.__setitem__ can return without storing / snapshotting (e.g. when the value is unchanged): the next revert then restores the snapshot of an earlier, "
               "already accepted assignment", construct="no early return before the store")
     for sn in snaps:
         hs = [h for h, pol in cfg.if_guards(sn)]
-        ctx.check(bool(hs) and cfg.all_paths_pass(cfg.entry, [hs[-1]], end=store), "C02.R1", f, cfg.stmt[sn], "the auto-fork test is evaluated on every path to the store",
+        ctx.check(bool(hs) and cfg.all_paths_pass(cfg.entry, [hs[-1]], end=store), rid, f, cfg.stmt[sn], "the auto-fork test is evaluated on every path to the store",
                   "some path reaches the store without evaluating the auto-fork test: no snapshot on that path", construct="auto-fork test on every path")
     for sn in snaps:
         st = cfg.stmt[sn]
@@ -55,12 +55,12 @@ def r1_snapshot(ctx):
         guarded = any(pol is True and U(cfg.stmt[h].test) in ("self.auto_fork_type is not None",) for h, pol in gs) or \
             any(pol is False and U(cfg.stmt[h].test) in ("self.auto_fork_type is None",) for h, pol in gs)
         # every path entry -> store with auto-fork on passes the snapshot: the guard's True branch must always pass sn before store
-        ctx.check(before, "C02.R1", f, st, "snapshot precedes the store on every path",
+        ctx.check(before, rid, f, st, "snapshot precedes the store on every path",
                   "the snapshot is taken after (or not before) the store: it would capture the proposed value, so a revert restores nothing")
         # key set
         comps = [x for x in ast.walk(st.value) if isinstance(x, ast.DictComp)]
         if len(comps) != 1:
-            ctx.unknown("C02.R1", f, st, "snapshot is not built by a single dict comprehension over the keys")
+            ctx.unknown(rid, f, st, "snapshot is not built by a single dict comprehension over the keys")
             continue
         dc = comps[0]
         it = inl.resolve(dc.generators[0].iter)
@@ -69,7 +69,7 @@ def r1_snapshot(ctx):
         want = {f"({key},) + self.dag.sorted_children[{key}]", f"self.dag.sorted_children[{key}] + ({key},)",
                 f"[{key}] + list(self.dag.sorted_children[{key}])", f"({key}, *self.dag.sorted_children[{key}])"}
         keys_ok = txt in want and U(dc.key) == tgt and U(dc.value) == f"self._values[{tgt}]" and not dc.generators[0].ifs
-        ctx.check(keys_ok and guarded, "C02.R1", f, dc, "snapshot = {k: self._values[k] for k in (name,)+sorted_children[name]} when auto-fork is on",
+        ctx.check(keys_ok and guarded, rid, f, dc, "snapshot = {k: self._values[k] for k in (name,)+sorted_children[name]} when auto-fork is on",
                   f"snapshot keys are `{txt}` (values `{U(dc.value)}`), not exactly the variable and all its transitive children - a revert would leave "
                   "derived values computed from the rejected proposal" if not keys_ok else "snapshot not taken exactly when auto_fork_type is not None")
 
